@@ -56,7 +56,7 @@ PROPS["C01"] = {
              "(1-6 msgs encoded as a follower receives them), truncate(class: any/inside batch/segment base+-1/batch start/beyond end), reopen(optionally new "
              "segment size), sethw, probe(start class, committed or not), newreader/read (parked committed readers; those positioned before a truncation point stay parked across the truncation, the others and all readers at a reopen are dropped), parksplit(uncommitted reader at the newest offset, roll of the active segment, append of 1-3 msgs: the reader must deliver them in order within 20 s). Non-trivial = the case rolled at least one segment AND contains one of: truncate "
              "strictly inside a batch, truncate at a segment base, reopen after a truncate, message-set append that rolled, probe starting at/inside a "
-             "non-first segment. distinct = SHA-1 of the case encoding. C01exh: 24,700 sequences (quick) / 444,636 (thorough) that start with an append, complete for its alphabet and length bound (coverage.exhaustive_units)."),
+             "non-first segment. distinct = SHA-1 of the case encoding. C01exh: 24,700 sequences (quick) / 444,604 (thorough) that start with an append, complete for its alphabet and length bound (coverage.exhaustive_units)."),
     "assumptions": TRUST + ["process keeps running (crashes are C05)", "no compaction/retention in this flavour (C08/C09)"],
     "units": [
         {"name": "C01", "pkg": "server/commitlog", "test": "TestVerifC01",
